@@ -136,6 +136,7 @@ def classify_expr_regexes(mod):
 class AStream:
     """abstract expression text: token tuple + position; aligned=False marks a remainder cut at the wrong place"""
     __slots__ = ('tokens', 'pos', 'aligned')
+    _is_text = True         # stands for a host string (isinstance(x, str) holds)
 
     def __init__(self, tokens, pos, aligned=True):
         self.tokens = tokens
